@@ -706,6 +706,42 @@ func injOp(sess *injSession, injs []inject.Injector, l []string) (out string) {
 			got[i] = int(v.Int())
 		}
 		return fmt.Sprintf("ran %s calls=%d res=%s", seen, calls, joinInts(got))
+	case len(l) == 4 && l[0] == "IP":
+		// the body PANICS (a failed type assertion of its own: a runtime.TypeAssertionError) once its parameters are
+		// resolved: it ran exactly once, whichever way it was invoked, and the panic is the caller's to see
+		sig := parseInts(l[3])
+		calls, seen := 0, "-"
+		rec := func(xs []interface{}) []int {
+			calls++
+			seen = sess.ids(xs)
+			var x interface{} = calls
+			_ = x.(string) // panics: interface conversion
+			return nil
+		}
+		var h interface{}
+		if l[2] == "f" {
+			h = mkFast(sig, rec)
+			if h == nil {
+				return "bad-op"
+			}
+		} else {
+			h = mkPlain(sig, 0, rec)
+		}
+		out := ""
+		func() {
+			defer func() {
+				if r := recover(); r != nil {
+					out = fmt.Sprintf("ran %s calls=%d panic", seen, calls)
+				}
+			}()
+			_, err := scope().Invoke(h)
+			if err != nil {
+				out = fmt.Sprintf("err notfound %d calls=%d", notFoundType(err.Error(), nInjTypes), calls)
+			} else {
+				out = fmt.Sprintf("ran %s calls=%d no-panic", seen, calls)
+			}
+		}()
+		return out
 	case len(l) == 4 && l[0] == "A":
 		return applyOp(sess, scope(), l[2], l[3])
 	}
@@ -1142,6 +1178,10 @@ func (g *injGen) randomInjectSession() {
 				mode = "f"
 			}
 			g.emit("I %d %s %s %s", sc, mode, joinInts(sig), joinInts(res))
+			if r.Intn(4) == 0 { // the same signature with a body that panics once it runs, both ways of invoking
+				g.emit("IP %d p %s", sc, joinInts(sig))
+				g.emit("IP %d f %s", sc, joinInts(sig))
+			}
 			if r.Intn(3) == 0 { // the same signature the other way round as well
 				other := map[string]string{"p": "f", "f": "p"}[mode]
 				g.emit("I %d %s %s %s", sc, other, joinInts(sig), joinInts(res))
